@@ -80,6 +80,26 @@ fn pair_obs<T: Ord + Hash + Clone>(a: &T, b: &T) -> String {
     )
 }
 
+/// The observation on two values; when both are objects (arrays) the same operators applied to the `Object`s
+/// (`Vec<Value>`s, entry slices) themselves must answer alike -- `Value`'s derived impls reach `Object::eq` and
+/// `Object::cmp` only, never a hand-written `ne`, `lt`, `partial_cmp` .. of the inner type.
+fn pv(a: &Value, b: &Value) -> String {
+    let top = pair_obs(a, b);
+    let inner = match (a, b) {
+        (Value::Object(x), Value::Object(y)) => {
+            let es = pair_obs(&x.entries().to_vec(), &y.entries().to_vec());
+            let o = pair_obs(x, y);
+            if o[..9] == es[..9] { Some(o) } else { Some(format!("{o}/entries:{es}")) }
+        }
+        (Value::Array(x), Value::Array(y)) => Some(pair_obs(x, y)),
+        _ => None,
+    };
+    match inner {
+        Some(i) if i[..9] != top[..9] => format!("{top}!INNER:{i}"),
+        _ => top,
+    }
+}
+
 pub fn eval(line: &str) -> String {
     if line.starts_with("hh ") {
         return eval_hist(line);
@@ -99,12 +119,12 @@ pub fn eval(line: &str) -> String {
         }
         format!(
             "ab={} ba={} bc={} ac={} aa={} clone={} S={}{}",
-            pair_obs(&a, &b),
-            pair_obs(&b, &a),
-            pair_obs(&b, &c),
-            pair_obs(&a, &c),
-            pair_obs(&a, &a),
-            pair_obs(&a, &cl),
+            pv(&a, &b),
+            pv(&b, &a),
+            pv(&b, &c),
+            pv(&a, &c),
+            pv(&a, &a),
+            pv(&a, &cl),
             stream(&a),
             if cf_ok { "" } else { " CLONE-FROM-DIFFERS" }
         )
